@@ -135,7 +135,8 @@ func lateCancel(c *Ctx, im *Impl) {
 		id := fmt.Sprintf("x%d", i)
 		s := NewScriptSess()
 		sessions = append(sessions, s)
-		_ = n.AddBackend(&oneShot{s}, netceptor.BackendConnectionCost(1.0))
+		sctx, scancel := context.WithCancel(ctx)
+		go func() { _ = n.VerifRunProtocol(sctx, s, netceptor.VerifBackendInfo(1.0, nil, nil)) }()
 		s.queue <- hsMsg(id)
 		deadline := time.Now().Add(2 * time.Second)
 		for time.Now().Before(deadline) {
@@ -149,18 +150,23 @@ func lateCancel(c *Ctx, im *Impl) {
 				break
 			}
 		}
-		s.Hangup()
+		if i%2 == 0 {
+			s.Hangup() // the peer goes away
+		} else {
+			scancel() // the backend's context is cancelled
+		}
+		_ = scancel
 		im.Hist("late-cancel-session")
 		im.Count("late-cancel "+id, true)
-		if !s.waitClosed(time.Second) {
-			break // reported below as hangup-not-closed; no point in waiting a second per session
+		if !s.waitClosed(time.Second) && !s.waitClosed(5*time.Second) {
+			break // really stuck: reported below as hangup-not-closed; no point in waiting for the others
 		}
 		time.Sleep(2 * time.Millisecond)
 	}
 	tries := len(sessions)
 	closed := 0
 	for _, s := range sessions {
-		if s.waitClosed(time.Second) {
+		if s.waitClosed(6 * time.Second) {
 			closed++
 		} else {
 			break
@@ -247,7 +253,7 @@ func gateRace(c *Ctx, im *Impl) {
 		}
 		return k
 	}
-	budget, maxRounds := 6*time.Second, 600
+	budget, maxRounds := 4*time.Second, 400
 	if c.Thorough() {
 		budget, maxRounds = 40*time.Second, 6000
 	}
@@ -337,12 +343,12 @@ func gateRace(c *Ctx, im *Impl) {
 		}
 		unclosed := 0
 		for _, s := range ss {
-			if unclosed == 0 && !s.waitClosed(time.Second) {
+			if unclosed == 0 && !s.waitClosed(time.Second) && !s.waitClosed(5*time.Second) {
 				unclosed++
 			}
 		}
 		if unclosed > 0 {
-			im.Violate(fmt.Sprintf("a session announcing %q was hung up by the peer and is not closed by the node within 1 s", id), "hangup-not-closed", rec)
+			im.Violate(fmt.Sprintf("a session announcing %q was hung up by the peer and is not closed by the node within 6 s", id), "hangup-not-closed", rec)
 			rounds++
 			break
 		}
@@ -511,6 +517,17 @@ func oneEnding(way, stage string) endingResult {
 		}
 	case "context-cancelled":
 		scancel() // the backend's context ends
+	case "never-handshakes":
+		// the peer keeps the session open, sends only datagrams that are not a handshake: after
+		// ten unanswered hellos (one per second) the node gives the session up
+		bound = 12500 * time.Millisecond
+		go func() {
+			for i := 0; i < 24 && !s.IsClosed(); i++ {
+				s.queue <- []byte{0xff, byte(i)}
+				s.queue <- dataPacket(5, nameHash(id), nameHash(selfID), "c", "probe", []byte("early"))
+				time.Sleep(500 * time.Millisecond)
+			}
+		}()
 	case "idle-timeout":
 		bound = maxIdle + 5*time.Second + 1500*time.Millisecond // the idle monitor looks every 5 s
 	}
@@ -551,13 +568,16 @@ func oneEnding(way, stage string) endingResult {
 	return endingResult{ok: true, elapsed: el}
 }
 
-func sessionEndings(c *Ctx, im *Impl) {
-	ways := []string{"recv-eof", "recv-error", "send-fails", "context-cancelled", "idle-timeout"}
+type endingJob struct{ way, stage string }
+
+// runEndings does the (wall-clock heavy: idle monitor 6 s, give-up 12 s) work; it touches neither
+// the PRNG nor the Impl, so it can run beside the child-process scenarios.
+func runEndings(thorough bool) ([]endingJob, []endingResult) {
+	ways := []string{"recv-eof", "recv-error", "send-fails", "context-cancelled", "idle-timeout", "never-handshakes"}
 	stages := []string{"before-handshake", "established-one-sided", "established-both-ways", "data-flowing"}
-	type job struct{ way, stage string }
-	var jobs []job
+	var jobs []endingJob
 	reps := 2
-	if c.Thorough() {
+	if thorough {
 		reps = 8
 	}
 	for rep := 0; rep < reps; rep++ {
@@ -566,7 +586,10 @@ func sessionEndings(c *Ctx, im *Impl) {
 				if w == "idle-timeout" && (st == "before-handshake" || rep > 0) {
 					continue // not established: nothing for the idle monitor to look at; one pass (6 s each)
 				}
-				jobs = append(jobs, job{w, st})
+				if w == "never-handshakes" && (st != "before-handshake" || rep > 0) {
+					continue // the give-up of sendInitialConnectMessage (10 hellos, one per second): one pass
+				}
+				jobs = append(jobs, endingJob{w, st})
 			}
 		}
 	}
@@ -583,6 +606,10 @@ func sessionEndings(c *Ctx, im *Impl) {
 		}(i)
 	}
 	wg.Wait()
+	return jobs, res
+}
+
+func reportEndings(im *Impl, jobs []endingJob, res []endingResult) {
 	reported := map[string]bool{}
 	for i, j := range jobs {
 		r := res[i]
